@@ -41,14 +41,14 @@ Proof. destruct b; reflexivity. Qed.
 Lemma rd_arr_S p f cnt bs acc : rd_arr p (S f) cnt bs acc =
   if cnt =? 0 then Ok (GArr (rev acc), bs)
   else '(v, r) <- rd_intf p f bs ;; rd_arr p f (cnt - 1) r (v :: acc).
-Proof. reflexivity. Qed.
+Proof. rewrite ?rev_alt. reflexivity. Qed.
 
 Lemma rd_map_S p f cnt bs acc : rd_map p (S f) cnt bs acc =
   if cnt =? 0 then Ok (GMap (rev acc), bs)
   else '(k, r1) <- rd_rec_key p bs ;;
        '(v, r2) <- rd_intf p f r1 ;;
        rd_map p f (cnt - 1) r2 ((k, v) :: acc).
-Proof. reflexivity. Qed.
+Proof. rewrite ?rev_alt. reflexivity. Qed.
 
 (* ================================================================== *)
 (* Extension values                                                    *)
@@ -873,7 +873,7 @@ Definition entry_rel (e : entry) (tv : stime * value) : Prop :=
 Lemma U_entries_loop_S p f cnt bs acc : U_entries_loop p (S f) cnt bs acc =
   if cnt =? 0 then Ok (rev acc, bs)
   else '(e, r) <- U_entry p bs ;; U_entries_loop p f (cnt - 1) r (e :: acc).
-Proof. reflexivity. Qed.
+Proof. rewrite ?rev_alt. reflexivity. Qed.
 
 Lemma as_eventtime_inv t t' : as_eventtime t = Some t' ->
   exists sec nsec, t' = TEvent sec nsec /\ as_time t = Some (TEvent sec nsec).
